@@ -202,6 +202,11 @@ def _child(world, spec, lifetime, start_op, carry, scratch, wfd):
         _send(wfd, result)
 
     try:
+        if os.environ.get('BIOSIM_CHILD_OUTPUT') != '1':
+            # the engine prints warnings from C++ straight to the file descriptors
+            devnull = os.open(os.devnull, os.O_WRONLY)
+            os.dup2(devnull, 1)
+            os.dup2(devnull, 2)
         faulthandler.enable()
         faulthandler.dump_traceback_later(SESSION_TIMEOUT - 2, exit=False)
         os.chdir(scratch)
